@@ -19,7 +19,8 @@ BOUNDS = ("Every public operation with every argument position fingerprinted (na
           "(aliasing, depth 2). Lite rounding model.")
 OUTSIDE = ("IEEE rounding; plates larger than 2x2; aliasing chains deeper than 2; the experimental_conditions dict; "
            "pandas/HTML renderings.")
-ASSUMPTIONS = ["instruction-text helpers are replaced by non-forking summaries (subject of C19)"]
+ASSUMPTIONS = ["Recipe._rounding_noise (the library's own bound on float rounding noise, the tolerance of get_substance_used's net-decrease test) is 0 in the real-number model, where roundings at internal precision are the identity; native companion runs use the real one",
+               "instruction-text helpers are replaced by non-forking summaries (subject of C19)"]
 EXPECT_OUTCOMES = ['ok', 'raised']
 
 SCENARIOS = ['ctor', 'transfer:c2c', 'transfer:slice2c', 'transfer:plate2c', 'remove', 'dilute', 'fill_to',
